@@ -142,6 +142,17 @@ def canonical_name(prog, v):
         n = prog.prefix + n
     return n
 
+def canonical_names(prog, v):
+    """All strings the property allows as V's canonical name: exactly one unless several serialize literals tie for longest."""
+    if v.to_string is not None or not v.serialize:
+        return [canonical_name(prog, v)]
+    m = max(len(s.encode('utf-8')) for s in v.serialize)
+    out = []
+    for s in v.serialize:
+        if len(s.encode('utf-8')) == m and s not in out:
+            out.append(s)
+    return [(prog.prefix or '') + s if prog.prefix is not None else s for s in out]
+
 def is_ci(prog, v):
     """C12: marked (or = true), or the enum is marked and the variant does not say = false."""
     if v.aci is not None:
